@@ -115,6 +115,12 @@ def gen_case(rng, tier, direction=None, feats=None):
                 t['end'] = now - rng.randrange(4, 9) * DAY_US - rng.choice([0, 5 * H])
                 if i not in has_child and rng.random() < 0.7:
                     t['start'] = t['end'] - rng.randrange(0, 6) * DAY_US
+    if d == 'fwd' and not feats.get('no_fixed') and rng.random() < 0.05:
+        # a task declared finished at a date that is still to come: the forward scheduler must refuse (C14)
+        t = rng.choice(tasks)
+        t['end'] = now + rng.randrange(1, 9) * DAY_US + rng.choice([0, 5 * H])
+        if rng.random() < 0.5:
+            t['start'] = t['end'] - rng.randrange(0, 4) * DAY_US
     # outside predecessors
     n_out = 0
     if rng.random() < 0.2:
